@@ -11,6 +11,7 @@ import (
 	"sort"
 	"strings"
 
+	"golang.org/x/tools/go/packages"
 	"golang.org/x/tools/go/ssa"
 )
 
@@ -26,6 +27,7 @@ type Prog struct {
 	globalZero map[*ssa.Global]bool
 	ordCache  map[*ssa.Function]map[ssa.Instruction]int
 	allFuncs  []*ssa.Function
+	astPkgs   []*packages.Package
 }
 
 type Obl struct {
@@ -40,6 +42,7 @@ type Obl struct {
 	Path   string
 	Where  string
 	Site   string // return site (ensures) — part of a finding's identity
+	MetricName, MetricKind, MetricPkg string
 	Exec   *Exec
 	// result
 	Status  string // proved refuted unknown covered uncovered
